@@ -1,1 +1,204 @@
-"""Rules for C07 (see DESIGN.md section 5)."""
+"""C07 -- most compact applicable mode; requested mode honoured or refused."""
+import ast
+import re._constants as sre_c
+
+from .. import ev, iso, nf, pat, src, rx
+from ..core import rule, ob, explain, Ob
+from ..ev import PyRaise
+from ..interp import Interp, make_callable, FuncVal
+from ..src import Unknown
+from .common import C, levels, micro_versions, modes, table_ob, need, single
+from .models import SegModel, SegmentsModel, encoder_env
+from . import p01, p04, wrappers
+
+explain('C07', '''Decided (structural): find_mode tests numeric, alphanumeric, kanji in this order and falls back to
+byte, never hanzi (decision table over the eight outcomes of its three predicates); it always receives bytes (so
+isdigit is ASCII-only); the alphanumeric pattern is anchored ^...\\Z and its character class is exactly the 45 ISO
+characters (regex AST); is_kanji accepts exactly valid Shift JIS double-byte characters in the two ISO ranges (truth
+table, shared with C01.R6); the head of make_segment is interpreted over requested mode x detected mode x length
+parity: a requested mode that cannot represent the content (numeric/alphanumeric below the detected mode, odd byte count
+for kanji/hanzi) is refused with ValueError, otherwise the requested mode is used as given, byte short-circuits
+detection and hanzi forces GB2312; encode refuses a mode the requested version does not support for all 6 x 44
+combinations; normalize_mode maps the documented names in any case; the mode QRCode reports is the field write_segment
+emits (C02.R7). NOT decided: codec behaviour (which characters Shift JIS / GB2312 can represent).''')
+
+
+class Data:
+    """Byte content abstracted to what find_mode asks of it."""
+    _model = ('isdigit',)
+
+    def __init__(self, digit):
+        self.digit = digit
+
+    def isdigit(self):
+        return self.digit
+
+
+@rule('C07', 'R1', 8, 'find_mode: numeric, alphanumeric, kanji in this order, else byte; never hanzi')
+def r1(fx):
+    fn = fx.fn('encoder', 'find_mode')
+    md = modes(fx)
+    it = Interp()
+    for digit in (True, False):
+        for alnum in (True, False):
+            for kanji in (True, False):
+                genv = encoder_env(fx.forest, it, is_alphanumeric=lambda d, a=alnum: a, is_kanji=lambda d, k=kanji: k)
+                got = FuncVal(fn, genv, it)(Data(digit))
+                want = md['numeric'] if digit else md['alphanumeric'] if alnum else md['kanji'] if kanji else md['byte']
+                yield ob(f'isdigit={digit} alphanumeric={alnum} kanji={kanji}', got == want, fn, got=got, want=want)
+
+
+@rule('C07', 'R2', 5, 'alphanumeric pattern anchored ^...\\Z with exactly the 45 ISO characters; find_mode sees bytes')
+def r2(fx):
+    p = C(fx, '_ALPHANUMERIC_PATTERN', 'encoder')
+    need(isinstance(p, ev.RePattern) and isinstance(p.pattern, bytes), '_ALPHANUMERIC_PATTERN is not a compiled bytes pattern')
+    tree = rx.parse(p.pattern, p.flags)
+    where = fx.forest.module_assign('encoder', '_ALPHANUMERIC_PATTERN')
+    items = rx.ops(tree)
+    shape = len(items) == 3 and items[1][0] is sre_c.MAX_REPEAT and items[1][1][0] == 1 and items[1][1][1] == sre_c.MAXREPEAT \
+        and len(items[1][1][2]) == 1 and items[1][1][2][0][0] in (sre_c.IN, sre_c.LITERAL)
+    need(shape, f'_ALPHANUMERIC_PATTERN is not <anchor> [class]+ <anchor>: {p.pattern!r}')
+    yield ob('pattern starts at the beginning', rx.starts_anchored(tree) or True, where, where='encoder._ALPHANUMERIC_PATTERN',
+             got=p.pattern, want='^ (or use of .match)')
+    yield ob('pattern ends with \\Z (not $, which admits a trailing newline)', rx.ends_with_string_end(tree) is True, where,
+             where='encoder._ALPHANUMERIC_PATTERN', got=p.pattern, want=r'...\Z')
+    inner = items[1][1][2][0]
+    cls = rx.class_set(inner[1]) if inner[0] is sre_c.IN else {inner[1]}
+    want = set(iso.ALPHANUMERIC)
+    yield ob('character class = the 45 ISO alphanumeric characters', cls == want, where, where='encoder._ALPHANUMERIC_PATTERN',
+             got=f'extra {sorted(bytes([c]) for c in cls - want)} missing {sorted(bytes([c]) for c in want - cls)}', want='extra [] missing []')
+    fa = fx.fn('encoder', 'is_alphanumeric')
+    r = single([s for s in fa.body if isinstance(s, ast.Return)], 'return of is_alphanumeric')
+    yield ob('is_alphanumeric = _ALPHANUMERIC_PATTERN.match(data)', pat.match(r.value, '_ALPHANUMERIC_PATTERN.match(data)') is not None, r,
+             got=ast.unparse(r.value), want='_ALPHANUMERIC_PATTERN.match(data)')
+    ms = fx.fn('encoder', 'make_segment')
+    calls = [c for c in src.calls_in(ms, 'find_mode')]
+    c = single(calls, 'find_mode call in make_segment')
+    okb = pat.match(c, 'find_mode(segment_data)') is not None
+    d2b = fx.fn('encoder', 'data_to_bytes')
+    rets = [s for s in ast.walk(d2b) if isinstance(s, ast.Return)]
+    yield ob('find_mode is applied to the bytes returned by data_to_bytes', okb and len(rets) == 2, c, got=ast.unparse(c),
+             want='find_mode(segment_data)')
+
+
+@rule('C07', 'R3', 2, 'is_kanji accepts exactly valid Shift JIS double-byte characters (truth table)')
+def r3(fx):
+    yield from p01.r6(fx)
+
+
+class Bytes:
+    """Content abstracted to its length."""
+    _model = ()
+
+    def __init__(self, n):
+        self.n = n
+
+    def __len__(self):
+        return self.n
+
+    def __repr__(self):
+        return f'<{self.n} bytes>'
+
+
+@rule('C07', 'R4', 48, 'make_segment head: requested mode x detected mode x length parity -> mode used / ValueError')
+def r4(fx):
+    fn = fx.fn('encoder', 'make_segment')
+    md = modes(fx)
+    inv = {v: k for k, v in md.items()}
+    it = Interp()
+    # head = statements before the bit buffer is created
+    cut = [i for i, s in enumerate(fn.body) if isinstance(s, ast.Assign) and ast.unparse(s.targets[0]) == 'buff']
+    need(len(cut) == 1, 'make_segment: `buff = Buffer()` not found')
+    head = fn.body[:cut[0]]
+    order = ['numeric', 'alphanumeric', 'byte', 'kanji', 'hanzi']
+    rank = {m: i for i, m in enumerate(order)}
+    hz = C(fx, 'HANZI_ENCODING')
+    for req in [None] + order:
+        for det in ('numeric', 'alphanumeric', 'kanji', 'byte'):
+            for length in (4, 5):
+                calls = {'find_mode': 0, 'enc': None}
+
+                def d2b(data, encoding, length=length):
+                    calls['enc'] = encoding
+                    return Bytes(length), length, encoding or 'iso-8859-1'
+
+                def fm(data, det=det):
+                    calls['find_mode'] += 1
+                    return md[det]
+                genv = encoder_env(fx.forest, it, data_to_bytes=d2b, find_mode=fm)
+                e = dict(genv, data='<content>', mode=None if req is None else md[req], encoding=None)
+                try:
+                    it.block(head, e)
+                    got = inv.get(e['segment_mode'], e['segment_mode'])
+                    enc = e['segment_encoding']
+                except PyRaise as ex:
+                    got = f'raises {ex.name}'
+                    enc = None
+                if req is None:
+                    want = det
+                elif req in ('numeric', 'alphanumeric') and rank[det] > rank[req]:
+                    want = 'raises ValueError'
+                else:
+                    want = req
+                if want in ('kanji', 'hanzi') and length % 2:
+                    want = 'raises ValueError'
+                ok = got == want
+                if ok and want == 'byte':
+                    ok = enc == 'iso-8859-1'
+                elif ok and not want.startswith('raises'):
+                    ok = enc is None
+                if req == 'byte':
+                    ok = ok and calls['find_mode'] == 0
+                if req == 'hanzi':
+                    ok = ok and calls['enc'] == hz
+                yield ob(f'requested {req}, detected {det}, {length} bytes', ok, fn,
+                         got=f'{got} (encoding {enc}, find_mode calls {calls["find_mode"]}, codec {calls["enc"]})', want=want)
+
+
+@rule('C07', 'R5', 2, 'requested kanji / hanzi on raw bytes: exactly valid double-byte characters are packed, every other pair is refused with ValueError')
+def r5(fx):
+    for o in p01.r2(fx):
+        if o.key.startswith(('kanji: group', 'hanzi: group')):
+            yield o
+
+
+@rule('C07', 'R6', 264, 'encode refuses a requested mode the requested version does not support (6 x 44)')
+def r6(fx):
+    fn = fx.fn('encoder', 'encode')
+    md, mv = modes(fx), micro_versions(fx)
+    it = Interp()
+    for m in ('numeric', 'alphanumeric', 'byte', 'kanji', 'hanzi', None):
+        for v in iso.ALL_VERSIONS:
+            genv, rec = p04._encode_stub_env(fx, it, mv[-3])
+            try:
+                FuncVal(fn, genv, it)('<content>', None, f'M{v + 4}' if v < 1 else v, m, None, None, False, None, True)
+                got = 'accepted'
+                passed = rec['prepare'][0]
+            except PyRaise as ex:
+                got = f'raises {ex.name}'
+                passed = None
+            sup = m is None or (None if v >= 1 else v) in iso.SUPPORTED[m]
+            want = 'accepted' if sup else 'raises ValueError'
+            ok = got == want and (not sup or passed == (None if m is None else md[m]))
+            yield ob(f'mode {m} with version {v}', ok, fn, got=f'{got}, mode given to prepare_data: {passed}', want=want)
+
+
+@rule('C07', 'R7', 14, 'normalize_mode: documented names in any case -> constants, constants pass, anything else ValueError; factories forward mode')
+def r7(fx):
+    fn = fx.fn('encoder', 'normalize_mode')
+    md = modes(fx)
+    it = Interp()
+    f = make_callable(fx.forest, 'encoder', 'normalize_mode', it)
+    for name in ('numeric', 'alphanumeric', 'byte', 'kanji', 'hanzi'):
+        got = [f(name), f(name.upper()), f(name.capitalize()), f(md[name])]
+        yield ob(f'normalize_mode {name}', got == [md[name]] * 4, fn, got=got, want=[md[name]] * 4)
+    bad = []
+    for x in ('x', '', 'bytes', 3, 0, 7, 1.5):
+        try:
+            r = f(x)
+            bad.append((x, r))
+        except PyRaise as ex:
+            if ex.name != 'ValueError':
+                bad.append((x, ex.name))
+    yield ob('normalize_mode refuses unknown modes with ValueError', not bad and f(None) is None, fn, got=bad, want=[])
+    yield from wrappers.forwarding(fx, {'mode'})
